@@ -258,6 +258,16 @@ def junk(rng, n):
     for i, t in enumerate(fixed):
         if t is not None:
             out.append(('fixed%d' % i, t))
+    # numeric leaves whose text Decimal() takes although it is no number, or a number of enormous magnitude
+    k = 0
+    for v in ('2.3', '2.5', '2.7'):
+        for val in ('Infinity', 'Inf', '-Inf', 'NaN', 'sNaN', 'nan', '1E28', '2.5E+30', '1E-400', '9' * 40, '1E+999999', '-0', '1e5',
+                    '.', '+', 'E5', '1_0', ' 1'):
+            head = 'MSH|^~\\&|||||||ADT^A01^ADT_A01|||%s\rEVN||2020\r' % v
+            out.append(('numeric%d' % k, head + 'PID|' + '|' * 23 + val))                     # PID-25 NM
+            out.append(('numeric%d' % (k + 1), head + 'PID|1\rPV1|1|I' + '|' * 44 + val))      # PV1-47 NM
+            out.append(('numeric%d' % (k + 2), head + 'PID|' + val))                           # PID-1 SI
+            k += 3
     return out
 
 
